@@ -7,6 +7,7 @@ CONE = [
     'csep.utils.time_utils.datetime_to_utc_epoch',
     'lemma:csep.utils.time_utils.round_trips',
     'lemma:csep.utils.time_utils.datetime_to_utc_epoch.monotone',
+    'csep.utils.time_utils.decimal_year',
 ]
 ORACLE_MODULES = ['rt.oracles_time']
 BOUNDED = os.path.exists(os.path.join(os.path.dirname(__file__), '..', 'rt', 'bounded_C15.py'))
@@ -21,14 +22,14 @@ TRUSTED = [
 ASSUMPTIONS = [
     'epoch milliseconds within +-(2^33-1)*1000 (covers 1900-01-01..2200-01-01): the half-ulp bound 2^-21 s of m/1000 is what makes the microsecond rounding exact',
     'float operations are finite, no overflow/underflow (model E)',
-    'strptime / str(datetime) (string layer), parse_string_format, decimal_year and its inverse are NOT under proof: string handling and the '
-    'Gregorian calendar decomposition are outside the engine subset - they are covered by the bounded stand-in only and never counted as proved',
+    'decimal_year is proved in model R over a civil date-time record (year, month, ..., microsecond as the datetime attributes the function reads; calendar.isleap / monthrange modelled by the Gregorian rules; the constant 1e-6 is the double the code uses): value == year + elapsed seconds / seconds of the leap-aware year; its rounding, strict monotonicity across floats and the inverse decimal_year_to_utc_datetime are bounded only',
+    'strptime / str(datetime) (string layer) and parse_string_format are NOT under proof: string handling is outside the engine subset - bounded stand-in only, never counted as proved',
 ]
 EXPLANATION = ('epoch_time_to_utc_datetime: the returned datetime has exactly 1000*m microseconds (model E, |m| < 2^33 s); datetime_to_utc_epoch: '
                'exact for whole milliseconds, within one millisecond otherwise, naive taken as UTC, non-UTC tz raises ValueError; round trips and '
-               'monotonicity as lemmas over the two contracts / relational execution of the real body')
+               'monotonicity as lemmas over the two contracts / relational execution of the real body; decimal_year == year + elapsed fraction of the leap-aware Gregorian year (12 month cases)')
 TECHNIQUE = ('contracts on the real functions; VCs from the AST under an axiomatised IEEE rounding model, discharged by z3; lemmas over the contracts; '
              'bounded millisecond windows as labelled stand-in for the string/calendar functions')
 LEVEL_TEXT = ('proof for the epoch<->datetime conversions (exactness, round trips, monotonicity) over all integer milliseconds in the range; '
-              'string parsing and decimal-year functions are bounded only and labelled so')
+              'decimal_year formula (model R); string parsing and the inverse decimal-year function are bounded only and labelled so')
 LEVEL_NOTE = 'CPython datetime semantics assumed (fromtimestamp rounding rule, exact timedelta arithmetic); model E for floats; platform posix'
